@@ -371,7 +371,9 @@ func VerifC12_DecodeClientPollRequest() {
 	jerr := false
 	if verifapi.Native() {
 		hdr := verifapi.Bytes("hdr", 5)
-		if verifapi.Bool("json.err") {
+		if !verifapi.Bool("hasBody") {
+			data = append([]byte{}, hdr...)
+		} else if verifapi.Bool("json.err") {
 			jerr = true
 			data = append(append([]byte{}, hdr...), []byte("{not json")...)
 		} else {
@@ -380,7 +382,10 @@ func VerifC12_DecodeClientPollRequest() {
 			data = append(append([]byte{}, hdr...), b...)
 		}
 	} else {
-		data = append(verifapi.Bytes("hdr", 5), '{', '}')
+		data = verifapi.Bytes("hdr", 5)
+		if verifapi.Bool("hasBody") { // also byte strings that end right after (or inside) the version line
+			data = append(data, '{', '}')
+		}
 	}
 	// reference framing: the text before the first newline must be "1.0"
 	nl := -1
